@@ -228,9 +228,30 @@ func genAsm(r *hx.Rand, tier string, class string) input {
 			script = append(script, ctl("enable", m, d), ctl("reset", m, 0))
 		}
 	}
-	cfg.Script = script
+	closing := len(script) - 4*len(all)
 	cfg.Agent.MaxInflight = 0
 	buf := !r.Chance(1, 8)
+	// Top-port back-pressure (drawn last, so the rest of the case is what it was
+	// without it): before one of the control histories in the middle of the traffic
+	// the agent stops retrieving data responses for a window, so the verbs (and the
+	// resets) of that history find the top module blocked on a full Top port.
+	if r.Chance(2, 5) {
+		var starts []int
+		for i := 1; i < closing; i++ {
+			if script[i].Kind == "C" && script[i-1].Kind != "C" {
+				starts = append(starts, i)
+			}
+		}
+		if len(starts) > 0 {
+			at := starts[r.Intn(len(starts))]
+			// the stall begins a few requests before the history, so that their
+			// responses pile up
+			at = max(1, at-r.Intn(6))
+			stall := memasm.Op{Kind: "S", Size: uint64(12 + r.Intn(60))}
+			script = append(script[:at], append([]memasm.Op{stall}, script[at:]...)...)
+		}
+	}
+	cfg.Script = script
 	return input{Kind: "asm", Asm: &asmInput{Cfg: cfg, Buf: buf}}
 }
 
